@@ -63,6 +63,17 @@ def pool_check(ctx):
     viol += s['violations']
     cov['compared']['aliasing'] = s['compared']
     cov['samples'] += s['samples'][:1]
+    # (f) same argument / same receiver, same result: repeated calls, and scores repeated after scoring a neighbour
+    from . import parsefam, scorefam
+    rp = ctx.tlc('MC_Parse', parsefam.CFG % dict(seed=ctx.seed, K=1, maxdev=1, fam='defects', big='TRUE'), name='MC_Parse_C14')
+    s = ctx.harness('parsecases', prop='C14', **{'in': rp['out']})
+    viol += s['violations']
+    cov['compared']['repeated ParseVector calls'] = s['compared']
+    for mode, tl in (('lift40', scorefam.tlc40), ('lift3x', scorefam.tlc3x), ('lift20', scorefam.tlc20)):
+        rr = tl(ctx)
+        s = ctx.harness(mode, prop='C14', n=400 if thorough else 40, **{'in': rr['out']})
+        viol += s['violations']
+        cov['compared'][mode + ': scores repeated after scoring a neighbour'] = s['compared']
     # (e) free-running goroutines under the race detector, every call validated against the sequential spec
     race = ctx.build_harness(race=True)
     v2, st = record_and_validate(ctx, 'C14', n=60000 if thorough else 2400, tier='concurrent', exe=race)
